@@ -33,8 +33,9 @@ CHANGE_SCRIPT_TYPE = {"p2pkh": "legacy", "p2sh": "p2sh-segwit", "p2wpkh": "bech3
 
 def runs(tier, seed):
     if tier == "thorough":
-        return [Run("wallet_create", cases=1600, params={"ops": 32}, timeout=5400)]
-    return [Run("wallet_create", cases=32, params={"ops": 18}, timeout=1500)]
+        # 51 200 requests; ~4 CPU-s per case under ASan -> ~7 min on 16 idle cores
+        return [Run("wallet_create", cases=1600, params={"ops": 32}, timeout=7200)]
+    return [Run("wallet_create", cases=32, params={"ops": 18}, timeout=3600)]
 
 
 def _fail_class(err):
@@ -275,7 +276,10 @@ def check(rec, st):
             st.seen("reject:" + acc["reason"].split(" ")[0])
         if demand:
             st.seen("accept_demanded")
-            if not acc["ok"]:
+            if not acc["ok"] and acc["reason"].startswith("tx-size-small") and tx["stripped_size"] < 65:
+                # own stable key for one corner (reachable only with --p tiny=1): 1-in-1-out payment to a 4-byte witness program
+                bad("tiny-tx-below-min-standard-size", "wallet created a transaction of %d non-witness bytes; the mempool's minimum standard size is 65 (tx-size-small)" % tx["stripped_size"], {"accept": acc})
+            elif not acc["ok"]:
                 bad("test-accept-rejects", "standard recipients, feerate >= minimum, all inputs spendable, yet test-accept says: " + acc["reason"], {"accept": acc})
     nin = len(ins)
     st.nontrivial(req["amount_mode"], req["fee_mode"], req["preset_mode"], len(recips), len(sffo), cp is not None, req["allow_other"], req["include_unsafe"],
